@@ -144,6 +144,10 @@ class DictDecoder:
                 # The value was found under the wrapper key
                 value = value[var.local_name]
 
+            if value is None and var.list_element:
+                # A null stands for no items, the field keeps its default
+                continue
+
             value = self.bind_value(meta, var, value)
             if var.init:
                 params[var.name] = value
@@ -512,7 +516,7 @@ class DictDecoder:
             if var.local_name == key:
                 var_is_list = var.list_element or var.tokens
                 is_array = collections.is_array(value)
-                if is_array == var_is_list:
+                if value is None or is_array == var_is_list:
                     return var
             elif var.wrapper == key:
                 if isinstance(value, dict) and var.local_name in value:
